@@ -8,7 +8,7 @@ from engine import Op, set_mode
 
 PROP = "C18"
 QUICK_BOOST = 2
-LEAN_MODULES = ["IsoDT.Props.C18"]
+LEAN_MODULES = ["IsoDT.Props.C18", "IsoDT.Props.C18b"]
 RULE = ("system zone configurations: every whole-minute standard offset within +-24 h x alternative offset "
         "(same, +-30, +-60 min) x daylight flag x is-dst in {-1,0,1} (exhaustive in the thorough tier, a "
         "stride in quick), entered by patching the `time` module object that timezone.py uses; second counts "
@@ -58,6 +58,14 @@ def configs(rng, tier, shard=None):
                         continue
                     # time.timezone is seconds WEST of UTC
                     yield (-60 * std, -60 * alt, daylight, isdst)
+    # a daylight offset of exactly zero (or of the opposite sign) against a non-zero standard offset, and the
+    # reverse: the branch taken must not depend on the VALUE of either offset
+    if not shard or shard[0] == 0:
+        for std in (0, 60, -60, 30, -30, 90, -90, 330, -210, 1, -1, 59, -59, 720, -720):
+            for alt in (0, 60, -60, 30, -30, 1, -1, std, -std):
+                for daylight in (0, 1):
+                    for isdst in (-1, 0, 1):
+                        yield (-60 * std, -60 * alt, daylight, isdst)
 
 
 class LocalTZ(Op):
